@@ -236,6 +236,22 @@ func c18Run(line string) string {
 		case len(f) == 2 && f[0] == "set":
 			sh.SetHTTPClient(client(f[1]))
 			return "nil"
+		case len(f) == 2 && f[0] == "retr":
+			// the usual way to change the underlying transport: take the instance's OWN client, replace its Transport, hand it back
+			c := sh.GetHTTPClient()
+			switch f[1] {
+			case "n":
+				c.Transport = nil
+			case "d":
+				c.Transport = http.DefaultTransport
+			default:
+				if stubs[f[1]] == nil {
+					stubs[f[1]] = mkStub(f[1])
+				}
+				c.Transport = stubs[f[1]]
+			}
+			sh.SetHTTPClient(c)
+			return "nil"
 		case len(f) == 2 && f[0] == "req":
 			log = log[:0]
 			defer func() {
@@ -326,7 +342,7 @@ func c18Gen(tier string, rng *rand.Rand, emit func(string)) map[string]interface
 	}
 	// 1. bounded-exhaustive: every history over a 16-op alphabet up to maxLen, then a request
 	alphabet := []string{"add 0", "add 1", "add 2", "add 0,1", "add 1,1", "add 2,0,2", "rem 0", "rem 1", "rem 2", "rem 0,1", "rem -", "clear",
-		"set c0", "set c1", "set c2", "req GET"}
+		"set c0", "set c1", "set c2", "req GET", "retr s1", "retr n"}
 	exhaustive := 0
 	heads := []string{}
 	for _, fail := range []string{"-", "0", "1"} {
@@ -370,8 +386,9 @@ func c18Gen(tier string, rng *rand.Rand, emit func(string)) map[string]interface
 				if fail < 0 && ki > 0 {
 					continue
 				}
-				for si, sets := range []string{"", "set c0 ; ", "set c0 ; set c0 ; ", "set c1 ; set c0 ; set c1 ; ", "set c2 ; set c3 ; set c2 ; ", "set c3 ; set c3 ; set c0 ; "} {
-					if ki > 0 && si != ki%6 && si != 0 {
+				for si, sets := range []string{"", "set c0 ; ", "set c0 ; set c0 ; ", "set c1 ; set c0 ; set c1 ; ", "set c2 ; set c3 ; set c2 ; ", "set c3 ; set c3 ; set c0 ; ",
+					"retr s5 ; ", "retr s5 ; retr s5 ; retr d ; ", "set c1 ; retr n ; set c1 ; retr s0 ; "} {
+					if ki > 0 && si != ki%9 && si != 0 {
 						continue
 					}
 					emit("clients=s0,n,d,s0 fail=" + f + " kind=" + kind + " tfail=" + tf + " st=" + c18Statuses[(directed)%len(c18Statuses)] + " new=c0:0,1,2,3: " + sets + "req " + v + " ; req " + v)
@@ -521,6 +538,10 @@ func c18Gen(tier string, rng *rand.Rand, emit func(string)) map[string]interface
 				}
 			}
 			switch {
+			case r >= 96 && sets < 3:
+				ops = append(ops, at+"retr "+[]string{"n", "d", "s0", "s1", "s9"}[rng.Intn(5)])
+				sets++
+				stats["retr"]++
 			case r < 8 && book < 6:
 				ops = append(ops, at+[]string{"addd", "remd"}[rng.Intn(2)])
 				book++
